@@ -20,7 +20,7 @@ BUDGET = {
     "intel": (120, 1200),
     "gw1n": (300, 3000),
     "gwosc": (80, 600),
-    "gw5a": (24, 300),
+    "gw5a": (40, 400),
     "trion": (150, 1500),
     "gatemate": (60, 600),
 }
@@ -104,9 +104,8 @@ def tally(ctx, recs, label="random"):
             p["compared"] += 1
         for v in r["viol"]:
             dis.append({"kind": "monitor", "what": v, "case": c, "real": r.get("real")})
-        if fam in ("gw5a", "trion", "gatemate"):
-            p["compared"] -= 1 if not (r["region"] or r["borderline"] or r.get("out_of_domain")) else 0
-            ctx.cov.count("oracle-only family (no Lean model):" + fam)
+        if r.get("emit_compared"):
+            ctx.cov.count("emitted instance compared item by item with the model:" + fam)
         if r["dis"]:
             dis.append({"kind": "correspondence", "what": r["dis"], "case": c, "real": r.get("real"), "model": r.get("model")})
     for key, p in sorted(per.items()):
